@@ -178,12 +178,14 @@ class G:
             return self.vec(2, max_scale) + [self.angle()]
         t = self.vec(3, max_scale)
         ax = self.unit_axis()
-        rcls = self.choice(["zero", "tiny", "generic", "generic", "boundary"])
+        rcls = self.choice(["zero", "tiny", "small", "generic", "generic", "boundary"])
         rnd = self.rnd
         if rcls == "zero":
             r = 0.0
         elif rcls == "tiny":
             r = 10.0 ** rnd.uniform(-12, -6)
+        elif rcls == "small":
+            r = 10.0 ** rnd.uniform(-6, -1)
         elif rcls == "generic":
             r = rnd.uniform(0.0, rot_max)
         else:
@@ -201,7 +203,7 @@ class G:
         if kind == "ident":
             return np.eye(n).tolist()
         cond = self.choice([c for c in [1.0, 1e2, 1e4, 1e8] if c <= max_cond])
-        base = self.choice([1e-3, 1.0, 1.0, 1e3])
+        base = self.choice([1e-12, 1e-8, 1e-3, 1.0, 1.0, 1e3, 1e8])
         lam = [base * (cond ** rnd.random()) for _ in range(n)]
         if n > 1:
             lam[0] = base
